@@ -4,6 +4,7 @@ Python ints and fractions for everything that decides membership of a case in th
 (determinants, ranks, Gram minors, circumcentres); NumPy only for floating comparisons.
 Never imports geometry_tools.
 """
+import functools
 import itertools
 import math
 from fractions import Fraction
@@ -129,6 +130,11 @@ def elementary(n, i, j, c):
 
 def unimodular_family(n):
     """A small fixed family of unimodular integer matrices of size n (index 0 = identity)."""
+    return [[list(r) for r in Q] for Q in _unimodular_family(n)]
+
+
+@functools.lru_cache(maxsize=None)
+def _unimodular_family(n):
     fam = [iidentity(n)]
     if n == 1:
         return fam + [[[-1]]]
